@@ -30,6 +30,14 @@ Theorem c20_serve_facts :
 Proof. vm_compute. repeat split; reflexivity. Qed.
 Print Assumptions c20_serve_facts.
 
+(** Wait and Broadcast decide on the code and the condition variable alone: no *)
+(* loop, no second condition, no field of the server written (no counter, flag *)
+(* or generation number whose value - after any number of earlier requests - *)
+(* could change who parks or who is woken). *)
+Theorem c20_cond_methods_stateless : cond_methods_stateless = true.
+Proof. exact eq_refl. Qed.
+Print Assumptions c20_cond_methods_stateless.
+
 (** * Main theorem: on EVERY sequence of atomic events (= every schedule) the *)
 (* model releases, event by event, exactly the waiters the property's sentence *)
 (* names - and the run is a value, not a panic. *)
